@@ -146,6 +146,22 @@ impl ConnIdCounter {
     }
 }
 
+#[cfg(vibrato_verif)]
+impl ConnIdCounter {
+    /// Verification hook: raw counts per left id and per right id.
+    pub fn verif_counts(&self) -> (Vec<usize>, Vec<usize>) {
+        (self.lid_count.clone(), self.rid_count.clone())
+    }
+}
+
+#[cfg(vibrato_verif)]
+impl ConnIdMapper {
+    /// Verification hook: the stored left and right tables.
+    pub fn verif_tables(&self) -> (Vec<u16>, Vec<u16>) {
+        (self.left.clone(), self.right.clone())
+    }
+}
+
 #[cfg(test)]
 mod tests {
     use super::*;
